@@ -20,7 +20,7 @@ ASSUMPTIONS = ['hashlib.sha1 is the reference; source samples are those segyio r
 def cases(tier, seed):
     rng = random.Random('C20/%s' % seed)
     out = []
-    n = 36 if tier == 'quick' else 500
+    n = 102 if tier == 'quick' else 600
     set3 = [(4, (4, 4, -1)), (2, (4, 4, -1)), (8, (8, 8, -1)), (2, (64, 64, 4)), (1, (4, 4, -1)), (16, (4, 4, -1)), (4, (4, 16, -1)),
             (0.5, (4, 4, -1)), (32, (16, 16, 4)), (8, (16, 4, -1))]
     set2 = [(4, (1, 16, -1)), (8, (1, 4, -1)), (2, (1, 64, -1)), (1, (1, 256, 128)), (16, (1, 16, -1)), (4, (1, 4, -1)), (8, (1, 32, -1))]
